@@ -718,4 +718,529 @@ theorem fine_refines {F : Nat} (g0 : Graph V) (s : FSys V) (h : FExec F g0 s) : 
       · rw [abs_upd]; rfl
 
 
+/-! ### the program system: program correctness, invariant, refinement, model version -/
+
+theorem runProg_cons (F : Nat) (op : MicroOp V) (ops : List (MicroOp V)) (x : Shared V × Loc V) :
+    runProg F (op :: ops) x = runProg F ops (exec F op x) := rfl
+
+theorem runProg_append (F : Nat) (a b : List (MicroOp V)) (x : Shared V × Loc V) :
+    runProg F (a ++ b) x = runProg F b (runProg F a x) := by
+  simp [runProg, List.foldl_append]
+
+/-- the pulls of the program are the pulls of `pullS` -/
+theorem run_pulls (F : Nat) (s : SNode V) (m : Nat) (g : Graph V) (mv : Nat) (l : Loc V)
+    (hn : l.node = some (.struct s)) (hr : l.run = true) :
+    runProg F (List.replicate m .pullStep) ((g, mv), l) =
+      (((pullS (Eval F) (s.next s.scalars s.arrays) s.deps m g l.es).1, mv),
+        { l with es := (pullS (Eval F) (s.next s.scalars s.arrays) s.deps m g l.es).2.1 }) := by
+  induction m generalizing g l with
+  | zero => simp [runProg, pullS]
+  | succ m ih =>
+    rw [List.replicate_succ, runProg_cons]
+    simp only [exec, hr, if_true, hn, pullS]
+    cases hnx : s.next s.scalars s.arrays l.es with
+    | none =>
+      dsimp only
+      -- the strategy has stopped: the remaining pull steps do nothing
+      have := ih g l hn hr
+      rw [this]
+      cases m with
+      | zero => simp [pullS, hn, hr]
+      | succ m => simp [pullS, hnx, hn, hr]
+    | some k =>
+      dsimp only
+      cases hdk : s.deps[k]? with
+      | none =>
+        dsimp only
+        have := ih g l hn hr
+        rw [this]
+        cases m with
+        | zero => simp [pullS, hn, hr]
+        | succ m => simp [pullS, hnx, hdk, hn, hr]
+      | some d =>
+        dsimp only
+        rw [ih _ _ (by simpa using hn) (by simpa using hr)]
+
+
+theorem set_set (g : Graph V) (p : Nat) (a b : Node V) : (g.set p a).set p b = g.set p b := by
+  funext j
+  by_cases hj : j = p <;> simp [Graph.set, hj]
+
+/-- **the programs are correct**: run from the state found at `Lock()` with nothing in between,
+    the micro-steps of a call leave exactly the graph of the atomic step `seqStep`, bump the model
+    version as the code does, and the response assembled from what they READ is the atomic response -/
+theorem prog_correct (F : Nat) (g : Graph V) (hac : Acyclic F g) (mv : Nat) (c : Call V) :
+    (runProg F (progOf g c) ((g, mv), {})).1.1 = (seqStep F g c).1 ∧
+    (runProg F (progOf g c) ((g, mv), {})).1.2 = mv + bump g c ∧
+    (runProg F (progOf g c) ((g, mv), {})).2.out = (seqStep F g c).2 := by
+  cases c with
+  | update p v =>
+    cases hp : g p with
+    | param x n =>
+      simp [progOf, runProg, exec, Loc.isParam, hp, seqStep, bump, Graph.set_same, set_set]
+    | struct s =>
+      simp [progOf, runProg, exec, Loc.isParam, hp, seqStep, bump]
+  | updateRejected p =>
+    cases hp : g p with
+    | param x n => simp [progOf, runProg, exec, Loc.isParam, hp, seqStep, bump]
+    | struct s => simp [progOf, runProg, exec, Loc.isParam, hp, seqStep, bump]
+  | paramData p =>
+    cases hp : g p with
+    | param x n => simp [progOf, runProg, exec, Loc.isParam, hp, seqStep, bump]
+    | struct s => simp [progOf, runProg, exec, Loc.isParam, hp, seqStep, bump]
+  | artifact i =>
+    obtain ⟨rank, hwf⟩ := hac
+    simp only [progOf, runProg_cons, runProg_append, bump, Nat.add_zero, seqStep]
+    cases hi : g i with
+    | param x n =>
+      have he : Eval F g i = (g, []) := by rw [Eval_eq g hwf, hi]
+      simp [exec, hi, pulls, runProg, he]
+    | struct s =>
+      cases ho : Outdated F g i with
+      | false =>
+        have he : Eval F g i = (g, []) := by rw [Eval_eq g hwf, hi]; simp [ho]
+        -- not outdated: every step is guarded by `run = false`
+        have hidle : ∀ m (l : Loc V), l.run = false →
+            runProg F (List.replicate m .pullStep) ((g, mv), l) = ((g, mv), l) := by
+          intro m
+          induction m with
+          | zero => intro l _; rfl
+          | succ m ih => intro l hl; rw [List.replicate_succ, runProg_cons]; simp only [exec, hl]; exact ih l hl
+        simp only [exec, hi, ho]
+        rw [hidle _ _ rfl]
+        simp [runProg, exec, he]
+      | true =>
+        simp only [exec, hi, ho, pulls]
+        rw [run_pulls F s s.deps.length g mv _ rfl rfl]
+        have he := Eval_eq g hwf i
+        rw [hi] at he
+        simp only [ho, if_true] at he
+        simp [runProg, exec, he, val, Graph.set_same]
+
+
+theorem exec_mv_mono (F : Nat) (op : MicroOp V) (x : Shared V × Loc V) : x.1.2 ≤ (exec F op x).1.2 := by
+  obtain ⟨⟨g, mv⟩, l⟩ := x
+  cases op <;> simp only [exec] <;> (try split) <;> (try split) <;> (try split) <;> (try split) <;>
+    first | exact Nat.le_refl _ | exact Nat.le_succ _
+
+theorem pinv {F : Nat} (g0 : Graph V) (s : PSys V) (h : PExec F g0 s) : PInv F s := by
+  induction h with
+  | init =>
+    refine ⟨?_, ?_, ?_, ?_, ?_, ?_⟩ <;> simp [PSys.init, PPc.isCrit]
+  | @step s s' _ hs ih =>
+    -- a step of client `t` that leaves the shared state alone and puts `t` at a non-critical,
+    -- non-reading pc
+    have other : ∀ (t u : Tid) (x : PPc V), u ≠ t → upd s.pc t x u = s.pc u := fun t u x h => upd_ne _ _ h
+    cases hs with
+    | invoke t c hpc =>
+      refine ⟨?_, ?_, ?_, ?_, ?_, ih.obs⟩ <;> dsimp only
+      · intro u hu
+        by_cases hut : u = t
+        · subst hut; simp [PPc.isCrit] at hu
+        · rw [other t u _ hut] at hu; exact ih.mutex u hu
+      · intro u hu
+        have := ih.locked u hu
+        by_cases hut : u = t
+        · subst hut; rw [hpc] at this; simp [PPc.isCrit] at this
+        · rw [other t u _ hut]; exact this
+      · intro u id c' start mv0 loc todo hu
+        by_cases hut : u = t
+        · subst hut; simp at hu
+        · rw [other t u _ hut] at hu; exact ih.prog u id c' start mv0 loc todo hu
+      · intro u mv0 hu
+        by_cases hut : u = t
+        · subst hut; simp at hu
+        · rw [other t u _ hut] at hu; exact ih.wait u mv0 hu
+      · intro u mv0 v hu
+        by_cases hut : u = t
+        · subst hut; simp at hu
+        · rw [other t u _ hut] at hu; exact ih.got u mv0 v hu
+    | acquire t id c hpc hlock =>
+      have nocrit : ∀ u, (s.pc u).isCrit = true → False := fun u hu => by
+        have := ih.mutex u hu; rw [hlock] at this; cases this
+      refine ⟨?_, ?_, ?_, ?_, ?_, ih.obs⟩ <;> dsimp only
+      · intro u hu
+        by_cases hut : u = t
+        · subst hut; rfl
+        · rw [other t u _ hut] at hu; exact (nocrit u hu).elim
+      · intro u hu
+        simp only [Option.some.injEq] at hu
+        subst hu
+        simp [PPc.isCrit]
+      · intro u id' c' start mv0 loc todo hu
+        by_cases hut : u = t
+        · subst hut
+          simp only [upd_same, PPc.crit.injEq] at hu
+          obtain ⟨-, rfl, rfl, rfl, rfl, rfl⟩ := hu
+          rfl
+        · rw [other t u _ hut] at hu
+          exact (nocrit u (by rw [hu]; rfl)).elim
+      · intro u mv0 hu
+        by_cases hut : u = t
+        · subst hut; simp at hu
+        · rw [other t u _ hut] at hu; exact ih.wait u mv0 hu
+      · intro u mv0 v hu
+        by_cases hut : u = t
+        · subst hut; simp at hu
+        · rw [other t u _ hut] at hu; exact ih.got u mv0 v hu
+    | micro t id c start mv0 loc op todo hpc =>
+      have hlt := ih.mutex t (by rw [hpc]; rfl)
+      have hmono : s.mv ≤ (exec F op ((s.g, s.mv), loc)).1.2 := exec_mv_mono F op ((s.g, s.mv), loc)
+      have onlyt : ∀ u, u ≠ t → (s.pc u).isCrit = true → False := fun u hut hu => by
+        have := ih.mutex u hu; rw [hlt] at this; exact hut (Option.some.inj this).symm
+      refine ⟨?_, ?_, ?_, ?_, ?_, ih.obs⟩ <;> dsimp only
+      · intro u hu
+        by_cases hut : u = t
+        · subst hut; exact hlt
+        · rw [other t u _ hut] at hu; exact ih.mutex u hu
+      · intro u hu
+        rw [hlt] at hu
+        simp only [Option.some.injEq] at hu
+        subst hu
+        simp [PPc.isCrit]
+      · intro u id' c' start' mv0' loc' todo' hu
+        by_cases hut : u = t
+        · subst hut
+          simp only [upd_same, PPc.crit.injEq] at hu
+          obtain ⟨-, rfl, rfl, rfl, rfl, rfl⟩ := hu
+          have := ih.prog u id c start mv0 loc (op :: todo) hpc
+          rw [runProg_cons] at this
+          exact this
+        · rw [other t u _ hut] at hu
+          exact (onlyt u hut (by rw [hu]; rfl)).elim
+      · intro u mv0' hu
+        by_cases hut : u = t
+        · subst hut; simp at hu
+        · rw [other t u _ hut] at hu
+          exact Nat.le_trans (ih.wait u mv0' hu) hmono
+      · intro u mv0' v hu
+        by_cases hut : u = t
+        · subst hut; simp at hu
+        · rw [other t u _ hut] at hu
+          have := ih.got u mv0' v hu
+          exact ⟨this.1, Nat.le_trans this.2 hmono⟩
+    | finish t id c start mv0 loc hpc =>
+      have hlt := ih.mutex t (by rw [hpc]; rfl)
+      have onlyt : ∀ u, u ≠ t → (s.pc u).isCrit = true → False := fun u hut hu => by
+        have := ih.mutex u hu; rw [hlt] at this; exact hut (Option.some.inj this).symm
+      refine ⟨?_, ?_, ?_, ?_, ?_, ih.obs⟩ <;> dsimp only
+      · intro u hu
+        by_cases hut : u = t
+        · subst hut; simp [PPc.isCrit] at hu
+        · rw [other t u _ hut] at hu; exact (onlyt u hut hu).elim
+      · intro u hu; cases hu
+      · intro u id' c' start' mv0' loc' todo' hu
+        by_cases hut : u = t
+        · subst hut; simp at hu
+        · rw [other t u _ hut] at hu; exact (onlyt u hut (by rw [hu]; rfl)).elim
+      · intro u mv0' hu
+        by_cases hut : u = t
+        · subst hut; simp at hu
+        · rw [other t u _ hut] at hu; exact ih.wait u mv0' hu
+      · intro u mv0' v hu
+        by_cases hut : u = t
+        · subst hut; simp at hu
+        · rw [other t u _ hut] at hu; exact ih.got u mv0' v hu
+    | respond t id c r hpc =>
+      refine ⟨?_, ?_, ?_, ?_, ?_, ih.obs⟩ <;> dsimp only
+      · intro u hu
+        by_cases hut : u = t
+        · subst hut; simp [PPc.isCrit] at hu
+        · rw [other t u _ hut] at hu; exact ih.mutex u hu
+      · intro u hu
+        have := ih.locked u hu
+        by_cases hut : u = t
+        · subst hut; rw [hpc] at this; simp [PPc.isCrit] at this
+        · rw [other t u _ hut]; exact this
+      · intro u id' c' start mv0 loc todo hu
+        by_cases hut : u = t
+        · subst hut; simp at hu
+        · rw [other t u _ hut] at hu; exact ih.prog u id' c' start mv0 loc todo hu
+      · intro u mv0 hu
+        by_cases hut : u = t
+        · subst hut; simp at hu
+        · rw [other t u _ hut] at hu; exact ih.wait u mv0 hu
+      · intro u mv0 v hu
+        by_cases hut : u = t
+        · subst hut; simp at hu
+        · rw [other t u _ hut] at hu; exact ih.got u mv0 v hu
+    | mvCall t hpc =>
+      refine ⟨?_, ?_, ?_, ?_, ?_, ih.obs⟩ <;> dsimp only
+      · intro u hu
+        by_cases hut : u = t
+        · subst hut; simp [PPc.isCrit] at hu
+        · rw [other t u _ hut] at hu; exact ih.mutex u hu
+      · intro u hu
+        have := ih.locked u hu
+        by_cases hut : u = t
+        · subst hut; rw [hpc] at this; simp [PPc.isCrit] at this
+        · rw [other t u _ hut]; exact this
+      · intro u id' c' start mv0 loc todo hu
+        by_cases hut : u = t
+        · subst hut; simp at hu
+        · rw [other t u _ hut] at hu; exact ih.prog u id' c' start mv0 loc todo hu
+      · intro u mv0 hu
+        by_cases hut : u = t
+        · subst hut
+          simp only [upd_same, PPc.mvWait.injEq] at hu
+          subst hu
+          exact Nat.le_refl _
+        · rw [other t u _ hut] at hu; exact ih.wait u mv0 hu
+      · intro u mv0 v hu
+        by_cases hut : u = t
+        · subst hut; simp at hu
+        · rw [other t u _ hut] at hu; exact ih.got u mv0 v hu
+    | mvLoad t mv0 hpc =>
+      refine ⟨?_, ?_, ?_, ?_, ?_, ih.obs⟩ <;> dsimp only
+      · intro u hu
+        by_cases hut : u = t
+        · subst hut; simp [PPc.isCrit] at hu
+        · rw [other t u _ hut] at hu; exact ih.mutex u hu
+      · intro u hu
+        have := ih.locked u hu
+        by_cases hut : u = t
+        · subst hut; rw [hpc] at this; simp [PPc.isCrit] at this
+        · rw [other t u _ hut]; exact this
+      · intro u id' c' start mv0' loc todo hu
+        by_cases hut : u = t
+        · subst hut; simp at hu
+        · rw [other t u _ hut] at hu; exact ih.prog u id' c' start mv0' loc todo hu
+      · intro u mv0' hu
+        by_cases hut : u = t
+        · subst hut; simp at hu
+        · rw [other t u _ hut] at hu; exact ih.wait u mv0' hu
+      · intro u mv0' v hu
+        by_cases hut : u = t
+        · subst hut
+          simp only [upd_same, PPc.mvGot.injEq] at hu
+          obtain ⟨rfl, rfl⟩ := hu
+          exact ⟨ih.wait u mv0 hpc, Nat.le_refl _⟩
+        · rw [other t u _ hut] at hu; exact ih.got u mv0' v hu
+    | mvReturn t mv0 v hpc =>
+      refine ⟨?_, ?_, ?_, ?_, ?_, ?_⟩ <;> dsimp only
+      · intro u hu
+        by_cases hut : u = t
+        · subst hut; simp [PPc.isCrit] at hu
+        · rw [other t u _ hut] at hu; exact ih.mutex u hu
+      · intro u hu
+        have := ih.locked u hu
+        by_cases hut : u = t
+        · subst hut; rw [hpc] at this; simp [PPc.isCrit] at this
+        · rw [other t u _ hut]; exact this
+      · intro u id' c' start mv0' loc todo hu
+        by_cases hut : u = t
+        · subst hut; simp at hu
+        · rw [other t u _ hut] at hu; exact ih.prog u id' c' start mv0' loc todo hu
+      · intro u mv0' hu
+        by_cases hut : u = t
+        · subst hut; simp at hu
+        · rw [other t u _ hut] at hu; exact ih.wait u mv0' hu
+      · intro u mv0' v' hu
+        by_cases hut : u = t
+        · subst hut; simp at hu
+        · rw [other t u _ hut] at hu; exact ih.got u mv0' v' hu
+      · intro o ho
+        simp only [List.mem_append, List.mem_singleton] at ho
+        rcases ho with ho | ho
+        · exact ih.obs o ho
+        · subst ho; exact ih.got t mv0 v hpc
+
+
+theorem pabs_upd (pc : Tid → PPc V) (t : Tid) (x : PPc V) :
+    (fun u => (upd pc t x u).abs) = upd (fun u => (pc u).abs) t x.abs := by
+  funext u
+  by_cases hut : u = t
+  · subst hut; simp
+  · simp [upd_ne _ _ hut]
+
+section
+variable [DecidableEq V]
+
+/-- **refinement**: every execution of the program system is, through `PSys.abs`, an execution of
+    the atomic system with the same history and critical-section order -/
+theorem prog_refines {F : Nat} (g0 : Graph V) (h0 : Init F g0) (s : PSys V) (h : PExec F g0 s) :
+    Exec F g0 s.abs := by
+  induction h with
+  | init => exact .init
+  | @step s s' hex hs ih =>
+    have hinv := pinv g0 s hex
+    have hgsame : ∀ (t : Tid) (x : PPc V), (s.pc t).isCrit = false →
+        (match s.lock with
+          | some u => ((upd s.pc t x u).start?).getD s.g
+          | none => s.g) = s.abs.g := by
+      intro t x ht
+      simp only [PSys.abs]
+      cases hlk : s.lock with
+      | none => rfl
+      | some u =>
+        dsimp only
+        have hu := hinv.locked u hlk
+        have hut : u ≠ t := by intro h; subst h; rw [ht] at hu; cases hu
+        rw [upd_ne _ _ hut]
+    -- a step that is invisible to the atomic system
+    have stutter : ∀ (t : Tid) (x : PPc V), (s.pc t).isCrit = false → x.abs = (s.pc t).abs →
+        Exec F g0 ({ g := (match s.lock with
+                            | some u => ((upd s.pc t x u).start?).getD s.g
+                            | none => s.g),
+                     lock := s.lock, pc := fun u => (upd s.pc t x u).abs, next := s.next, hist := s.hist,
+                     lin := s.lin } : Sys V) := by
+      intro t x ht hx
+      refine cast ?_ ih
+      congr 1
+      simp only [PSys.abs]
+      congr 1
+      · exact (hgsame t x ht).symm
+      · rw [pabs_upd]
+        exact (upd_self _ t _ hx.symm).symm
+    cases hs with
+    | invoke t c hpc =>
+      have hstep := Step.invoke (F := F) s.abs t c (by simp [PSys.abs, hpc, PPc.abs])
+      refine cast ?_ (Exec.step ih hstep)
+      congr 1
+      simp only [PSys.abs]
+      congr 1
+      · exact (hgsame t _ (by rw [hpc]; rfl)).symm
+      · rw [pabs_upd]; rfl
+    | acquire t id c hpc hlock =>
+      have hstep := Step.acquire (F := F) s.abs t id c (by simp [PSys.abs, hpc, PPc.abs]) (by simp [PSys.abs, hlock])
+      refine cast ?_ (Exec.step ih hstep)
+      congr 1
+      simp only [PSys.abs]
+      congr 1
+      · simp [hlock, PPc.start?]
+      · rw [pabs_upd]; rfl
+    | micro t id c start mv0 loc op todo hpc =>
+      have hlt := hinv.mutex t (by rw [hpc]; rfl)
+      refine cast ?_ ih
+      congr 1
+      simp only [PSys.abs]
+      congr 1
+      · simp [hlt, hpc, PPc.start?]
+      · rw [pabs_upd]
+        exact (upd_self _ t _ (by simp [hpc, PPc.abs])).symm
+    | finish t id c start mv0 loc hpc =>
+      have hlt := hinv.mutex t (by rw [hpc]; rfl)
+      have hg : s.abs.g = start := by simp [PSys.abs, hlt, hpc, PPc.start?]
+      -- the state found at `Lock()` is a state of the sequential specification, hence acyclic
+      have hac : Acyclic F start := by
+        have hst := (Linz.J.exec ih).state
+        rw [hg] at hst
+        rw [hst]
+        exact (replay_inv h0.inv _).wf
+      have hp := hinv.prog t id c start mv0 loc [] hpc
+      have hc := prog_correct F start hac mv0 c
+      rw [← hp] at hc
+      simp only [runProg, List.foldl_nil] at hc
+      have h1 := Exec.step ih (Step.exec (F := F) s.abs t id c (by simp [PSys.abs, hpc, PPc.abs]))
+      have h2 := Exec.step h1 (Step.release _ t id c (seqStep F s.abs.g c).2 (by simp))
+      refine cast ?_ h2
+      congr 1
+      rw [hg]
+      simp only [PSys.abs]
+      rw [hc.2.2]
+      congr 1
+      · exact hc.1.symm
+      · rw [pabs_upd, upd_upd]; rfl
+    | respond t id c r hpc =>
+      have hstep := Step.respond (F := F) s.abs t id c r (by simp [PSys.abs, hpc, PPc.abs])
+      refine cast ?_ (Exec.step ih hstep)
+      congr 1
+      simp only [PSys.abs]
+      congr 1
+      · exact (hgsame t _ (by rw [hpc]; rfl)).symm
+      · rw [pabs_upd]; rfl
+    | mvCall t hpc => exact stutter t _ (by rw [hpc]; rfl) (by rw [hpc]; rfl)
+    | mvLoad t mv0 hpc => exact stutter t _ (by rw [hpc]; rfl) (by rw [hpc]; rfl)
+    | mvReturn t mv0 v hpc => exact stutter t _ (by rw [hpc]; rfl) (by rw [hpc]; rfl)
+
+end
+
+
+theorem bumpsAlong_snoc (F : Nat) (g : Graph V) (cs : List (Call V)) (c : Call V) :
+    bumpsAlong F g (cs ++ [c]) = bumpsAlong F g cs + bump (replay F g cs).1 c := by
+  induction cs generalizing g with
+  | nil => simp [bumpsAlong, replay]
+  | cons a as ih => simp [bumpsAlong, replay, ih, Nat.add_assoc]
+
+section
+variable [DecidableEq V]
+
+/-- the model version counter counts the parameter messages: outside critical sections it is the
+    number of `UpdateParameter` calls on parameters (accepted or rejected) among the critical
+    sections that have run; a client inside its critical section found exactly that number -/
+theorem model_version_counts {F : Nat} (g0 : Graph V) (h0 : Init F g0) (s : PSys V) (h : PExec F g0 s) :
+    (s.lock = none → s.mv = bumpsAlong F g0 (s.lin.map (·.call))) ∧
+    (∀ t id c start mv0 loc todo, s.pc t = .crit id c start mv0 loc todo →
+      mv0 = bumpsAlong F g0 (s.lin.map (·.call))) := by
+  induction h with
+  | init => exact ⟨fun _ => rfl, by intro t id c start mv0 loc todo h; simp [PSys.init] at h⟩
+  | @step s s' hex hs ih =>
+    have hinv := pinv g0 s hex
+    have habs := prog_refines g0 h0 s hex
+    have keep : ∀ (t : Tid) (x : PPc V), x.isCrit = false →
+        ∀ u id c start mv0 loc todo, upd s.pc t x u = .crit id c start mv0 loc todo →
+          mv0 = bumpsAlong F g0 (s.lin.map (·.call)) := by
+      intro t x hx u id c start mv0 loc todo hu
+      by_cases hut : u = t
+      · subst hut; rw [upd_same] at hu; rw [hu] at hx; cases hx
+      · rw [upd_ne _ _ hut] at hu; exact ih.2 u id c start mv0 loc todo hu
+    cases hs with
+    | invoke t c hpc => exact ⟨ih.1, keep t _ rfl⟩
+    | acquire t id c hpc hlock =>
+      refine ⟨(by intro h; cases h), ?_⟩
+      intro u id' c' start mv0 loc todo hu
+      dsimp only at hu
+      by_cases hut : u = t
+      · subst hut
+        simp only [upd_same, PPc.crit.injEq] at hu
+        obtain ⟨-, -, -, rfl, -, -⟩ := hu
+        exact ih.1 hlock
+      · rw [upd_ne _ _ hut] at hu
+        exact ih.2 u id' c' start mv0 loc todo hu
+    | micro t id c start mv0 loc op todo hpc =>
+      have hlt := hinv.mutex t (by rw [hpc]; rfl)
+      refine ⟨(by intro h; dsimp only at h; rw [hlt] at h; cases h), ?_⟩
+      intro u id' c' start' mv0' loc' todo' hu
+      dsimp only at hu
+      by_cases hut : u = t
+      · subst hut
+        simp only [upd_same, PPc.crit.injEq] at hu
+        obtain ⟨-, -, -, rfl, -, -⟩ := hu
+        exact ih.2 u id c start mv0 loc (op :: todo) hpc
+      · rw [upd_ne _ _ hut] at hu
+        exact ih.2 u id' c' start' mv0' loc' todo' hu
+    | finish t id c start mv0 loc hpc =>
+      have hlt := hinv.mutex t (by rw [hpc]; rfl)
+      have hg : s.abs.g = start := by simp [PSys.abs, hlt, hpc, PPc.start?]
+      have hst := (Linz.J.exec habs).state
+      rw [hg] at hst
+      have hac : Acyclic F start := by rw [hst]; exact (replay_inv h0.inv _).wf
+      have hp := hinv.prog t id c start mv0 loc [] hpc
+      have hc := prog_correct F start hac mv0 c
+      rw [← hp] at hc
+      simp only [runProg, List.foldl_nil] at hc
+      have hmv0 := ih.2 t id c start mv0 loc [] hpc
+      refine ⟨?_, ?_⟩
+      · intro _
+        show s.mv = bumpsAlong F g0 ((s.lin ++ [(⟨id, t, c, loc.out⟩ : LOp V)]).map (·.call))
+        rw [List.map_append, List.map_cons, List.map_nil, bumpsAlong_snoc]
+        have : (replay F g0 (s.lin.map (·.call))).1 = start := hst.symm
+        rw [hc.2.1, hmv0]
+        simp only [this]
+      · intro u id' c' start' mv0' loc' todo' hu
+        dsimp only at hu
+        by_cases hut : u = t
+        · subst hut; simp at hu
+        · rw [upd_ne _ _ hut] at hu
+          have := hinv.mutex u (by rw [hu]; rfl)
+          rw [hlt] at this
+          exact absurd (Option.some.inj this).symm hut
+    | respond t id c r hpc => exact ⟨ih.1, keep t _ rfl⟩
+    | mvCall t hpc => exact ⟨ih.1, keep t _ rfl⟩
+    | mvLoad t mv0 hpc => exact ⟨ih.1, keep t _ rfl⟩
+    | mvReturn t mv0 v hpc => exact ⟨ih.1, keep t _ rfl⟩
+
+end
+
+
 end PolyVerif.Linz
